@@ -57,7 +57,10 @@ class CacheData:
     def ingest_yaml(self, yaml_domain: gizaparser.domain.GizaYamlDomain) -> None:
         self.yaml_nodes.clear()
         for category_name, category in yaml_domain.yaml_mapping.items():
-            if category.reified_nodes is None:
+            if (
+                category.reified_nodes is None
+                or category_name in yaml_domain.uncacheable
+            ):
                 continue
 
             for node in category.reified_nodes.values():
@@ -83,7 +86,7 @@ class CacheData:
         """Get a specific page from the cached data with the specified blake2b hash. Raises KeyError
         if the page is not found or the checksum does not match."""
 
-        text, _ = config.read(path)
+        text, read_diagnostics = config.read(path)
         file_hash = hashlib.blake2b(bytes(text, "utf-8")).hexdigest()
 
         try:
@@ -98,6 +101,13 @@ class CacheData:
 
         assert isinstance(page, Page)
         assert all(isinstance(x, Diagnostic) for x in diagnostics)
+
+        # The text is not all there is to know about a source file that was read with diagnostics
+        # (it could not be decoded, it refers to undeclared constants...): such a page is only
+        # reusable if it recorded a dependency on its own raw source file.
+        if read_diagnostics and path not in (page.dependencies.dependencies or {}):
+            self.stats.misses += 1
+            raise CacheMiss()
 
         # Check page dependencies
         try:
